@@ -4,6 +4,7 @@ import random
 from glue.core.component_link import ComponentLink
 from glue.core.subset import Subset, SubsetState
 from glue.core.data import ComponentID
+from glue.utils import view_shape
 
 
 # The following expression matches substrings surrounded by curly brackets
@@ -217,7 +218,8 @@ class ParsedCommand(object):
         # locals so we import it manually to avoid any issues.
         import numpy as np  # noqa
         if data is not None and np.isscalar(result):
-            result = np.ones(data.shape) * result
+            # Expand to the shape the data has once the view is applied
+            result = np.ones(view_shape(data.shape, view)) * result
 
         return result
 
